@@ -55,9 +55,9 @@ type MAtom struct {
 type HKind int
 
 const (
-	hValid HKind = iota
-	hAuth        // request side: a spelling of Authorization
-	hSafelisted  // response side: CORS-safelisted response-header name
+	hValid      HKind = iota
+	hAuth             // request side: a spelling of Authorization
+	hSafelisted       // response side: CORS-safelisted response-header name
 	hForbidden
 	hProhibited
 	hInvalid
@@ -88,6 +88,9 @@ type CfgSpec struct {
 	Status      int     `json:"status"`
 	TolInsecure bool    `json:"tolerate_insecure"`
 	TolPSL      bool    `json:"tolerate_psl"`
+	// NonNilEmpty: lists without elements reach the library as empty non-nil slices (`[]string{}`, what JSON `[]`, a
+	// filtered list or `xs[:0]` give) instead of nil (lesson of seeded change C04-n: `patterns == nil` is not `len(patterns) == 0`)
+	NonNilEmpty bool `json:"empty_lists_non_nil,omitempty"`
 }
 
 func (c *CfgSpec) Config() cors.Config {
@@ -111,6 +114,20 @@ func (c *CfgSpec) Config() cors.Config {
 	cfg.PrivateNetworkAccessInNoCORSModeOnly = c.PNA == pnaNoCors || c.PNA == pnaBoth
 	cfg.DangerouslyTolerateInsecureOrigins = c.TolInsecure
 	cfg.DangerouslyTolerateSubdomainsOfPublicSuffixes = c.TolPSL
+	if c.NonNilEmpty {
+		if cfg.Origins == nil {
+			cfg.Origins = []string{}
+		}
+		if cfg.Methods == nil {
+			cfg.Methods = make([]string, 0, 4)
+		}
+		if cfg.RequestHeaders == nil {
+			cfg.RequestHeaders = []string{"x"}[:0]
+		}
+		if cfg.ResponseHeaders == nil {
+			cfg.ResponseHeaders = []string{}
+		}
+	}
 	return cfg
 }
 
@@ -124,7 +141,7 @@ func cfgJSON(cfg *cors.Config) map[string]any {
 		"RequestHeaders": cfg.RequestHeaders, "MaxAgeInSeconds": cfg.MaxAgeInSeconds,
 		"ResponseHeaders": cfg.ResponseHeaders, "PreflightSuccessStatus": cfg.PreflightSuccessStatus,
 		"PrivateNetworkAccess": cfg.PrivateNetworkAccess, "PrivateNetworkAccessInNoCORSModeOnly": cfg.PrivateNetworkAccessInNoCORSModeOnly,
-		"DangerouslyTolerateInsecureOrigins": cfg.DangerouslyTolerateInsecureOrigins,
+		"DangerouslyTolerateInsecureOrigins":            cfg.DangerouslyTolerateInsecureOrigins,
 		"DangerouslyTolerateSubdomainsOfPublicSuffixes": cfg.DangerouslyTolerateSubdomainsOfPublicSuffixes,
 	}
 }
@@ -347,6 +364,7 @@ var (
 		hv("Accept"), hv("If-None-Match"), hv("Foo"), hv("x-a"), hv("x-ab"), hv("X"), hv("Access-Control-Foo"),
 		hv("X_Request_Id"), hv("x_trace_id"), hv("X^Caret"), hv("X.Dot"), hv("X!#$%&'*+.^_`|~Z"), hv("Accept-Language"), hv("x-9"),
 		hv("x-the-quick-brown-fox-jumps-over-a-lazy-dog"), // every letter of the alphabet
+		hv("1st-Party-Id"), hv("_csrf-token"), hv("!bang"), hv("~Tilde"), hv("-dash"), hv("9"), // names that do not start with a letter
 		// long names (there is no documented length limit): around 64, 128 and 256 bytes
 		hv("x-len63-" + strings.Repeat("a", 55)), hv("X-Len64-" + strings.Repeat("b", 56)), hv("x-len65-" + strings.Repeat("c", 57)),
 		hv("x-len128-" + strings.Repeat("d", 119)), hv("X-LEN200-" + strings.Repeat("E", 191)), hv("x-len257-" + strings.Repeat("f", 248))}
@@ -369,7 +387,7 @@ var (
 		hk("x-\uFF21bc", hInvalid), hk("X-Z\u0142oty", hInvalid), hk("x-\u4E2D", hInvalid), hk("Content-Type\u212A", hInvalid), hk("authorizat\u0131on", hInvalid)}
 	hStarAtom = HAtom{"*", hStar, "*"}
 
-	validRespHdrAtoms      = []HAtom{hv("X-Response-Time"), hv("ETag"), hv("location"), hv("X-Exposed-1"), hv("x-exposed-2"), hv("Link"), hv("X-A"), hv("x-b"),
+	validRespHdrAtoms = []HAtom{hv("X-Response-Time"), hv("ETag"), hv("location"), hv("X-Exposed-1"), hv("x-exposed-2"), hv("Link"), hv("X-A"), hv("x-b"),
 		hv("X_Rate_Limit"), hv("X^Up"), hv("X.Y~Z"), hv("X-Sphinx-Of-Black-Quartz-Judge-My-Vow"), hv("x-exp-len64-" + strings.Repeat("g", 52)), hv("X-Exp-Len130-" + strings.Repeat("h", 117))}
 	safelistedRespHdrAtoms = []HAtom{hk("Cache-Control", hSafelisted), hk("content-language", hSafelisted), hk("Content-Length", hSafelisted),
 		hk("CONTENT-TYPE", hSafelisted), hk("Expires", hSafelisted), hk("Last-Modified", hSafelisted), hk("pragma", hSafelisted)}
@@ -493,7 +511,7 @@ type Sem struct {
 	AuthListed bool
 	Hdrs       map[string]bool // byte-lowercased, incl. "authorization" when listed
 	MaxAge     int
-	Status     int             // effective success status
+	Status     int // effective success status
 	ExposeAll  bool
 	Expose     map[string]bool // lower-cased, non-safelisted
 	ExposeSafe map[string]bool // lower-cased safelisted names that were listed
